@@ -2021,12 +2021,12 @@ impl<R: Reader, S: EvaluationStorage<R>> Evaluation<R, S> {
 
     fn evaluate_internal(&mut self) -> Result<EvaluationResult<R>> {
         while !self.end_of_expression() {
-            self.iteration += 1;
             if let Some(max_iterations) = self.max_iterations
-                && self.iteration > max_iterations
+                && self.iteration >= max_iterations
             {
                 return Err(Error::TooManyIterations);
             }
+            self.iteration = self.iteration.saturating_add(1);
 
             let op_result = self.evaluate_one_operation()?;
             match op_result {
